@@ -78,6 +78,18 @@ def tasks(tier):
                    strat_menu=[1, 9], strat_free=True, strat_obj=True, rec_durs=[0, 1, 2, 4],
                    max_unknown=None, sleeper="call")
         out.append({"family": "envelope-slow-record", "cfg": cfg, "entry": e, "bound": 2, "weight": 3})
+    # the strategy itself raises on a later failure: whatever the library does then, no sleep may
+    # exceed the time remaining
+    for D, idx, e in itertools.product([3, 4], [1, 2], Q4):
+        cfg = dict(M=4, deadline=D, alphabet=["ok", "x:T", "r:R"], durs=[0, 1], dur_free=True,
+                   strat_menu=[3, 1, 9], strat_free=True, max_unknown=None, sleeper="call",
+                   faults=[("strategy", idx, "KeyError")])
+        out.append({"family": "envelope-strategy-fault", "cfg": cfg, "entry": e, "bound": 0})
+    # an abort predicate is configured (it never fires) and the delay is capped by the deadline
+    for D, e in itertools.product([3, 5, 7], Q4 + ["Policy.call", "RetryPolicy.execute"]):
+        cfg = dict(M=3, deadline=D, alphabet=["ok", "x:T", "r:R"], durs=[0, 1], dur_free=True,
+                   strat_menu=[9, 20], strat_free=True, max_unknown=None, sleeper="call", abort=True)
+        out.append({"family": "envelope-abort-configured", "cfg": cfg, "entry": e, "bound": 0})
     for t in nest_tasks(Q4, "envelope-reentrant", ["ok", "x:T", "r:R"], bound=1, deadline=3,
                         durs=[0, 2], dur_free=True, strat_menu=[1, 9], overshoot=[0, 3]):
         t["cfg"]["nest"] = dict(t["cfg"]["nest"], script=["x:T", "ok"])
